@@ -5,9 +5,9 @@ import io, json, os, random, copy
 import core, layout, store_common as sc
 
 ID = 'C16'
-GENMODS = ['gen_c16', 'gen_c10', 'gen_c18']
+GENMODS = ['gen_c16', 'gen_c10', 'gen_c18', 'gen_store']
 TARGET = 'props/C16.vo'
-PROOF_FILES = ['proof/C16.v', 'props/C16.v']
+PROOF_FILES = ['proof/C16.v', 'proof/IniProofs.v', 'proof/IniFile.v', 'props/C16.v']
 AXIOMS = []
 TRUSTED = [
     'Coq 8.16.1 kernel; no axioms; vm_compute evaluates validate for the correspondence',
@@ -352,10 +352,12 @@ def correspond(ctx):
             'with_spline': sum(1 for c in cases if 'spline(' in r_model(c['model'])), 'with_trans': sum(1 for c in cases if 'trans(' in r_model(c['model'])),
             'with_custom_forms': sum(1 for c in cases if c['model'].get('custom')), 'with_table_forms': sum(1 for c in cases if c['model'].get('tables'))}
     for c in cases: dist['targets'][str(c['model']['target'])] = dist['targets'].get(str(c['model']['target']), 0) + 1
-    return {'evaluations': len(cases), 'cases': cases, 'nontrivial': core.distinct_count([c for c in cases if c['expect'] == 'CfgErr']) + core.distinct_count([c for c in cases if c['expect'] == 'Ok']),
+    import ini_common as ic
+    idis, istats, _ = ic.check_ini(ctx, 300 if ctx['thorough'] else 80, 'C16i'); dis += idis; dist.update(istats)
+    return {'evaluations': len(cases) + istats['ini_files'], 'cases': cases, 'nontrivial': core.distinct_count([c for c in cases if c['expect'] == 'CfgErr']) + core.distinct_count([c for c in cases if c['expect'] == 'Ok']),
             'rule': 'well-formed models over all eleven targets (pair / EAM / Finnis-Sinclair / ADP; 1..3 species; custom and table forms; definitions to depth 2 with ranges, sum/product/pow/trans/spline, modifiers as spline ends) and one catalogue '
                     'malformation of each (%d operators: targets, sections, keys, key styles, table data, labels, parameter counts, modifier names and arities, every spline rule): validate vs Configuration().read, a sample through the potable CLI '
-                    '(exit status and the "configuration error -" prefix); text-level malformations by the oracle' % len(muts),
+                    '(exit status and the "configuration error -" prefix); text-level malformations by the oracle; text level: parse_ini (model/Ini.v) vs the raw parser of the repository on generated files including stray lines before the first header and malformed lines' % len(muts),
             'samples': [{'expect': c['expect'], 'mutation': c['model'].get('mutation'), 'text': r_model(c['model'])[:400]} for c in cases[:3]], 'distribution': dist, 'disagreements': dis[:20], 'oracle_cases': cases[:120]}
 
 def corpus():
